@@ -260,6 +260,22 @@ pub fn scenarios(prop: &str, tier: &str) -> Vec<Scenario> {
                 }
             }
         }
+        // RRT / RRT*: a goal sampler that also returns a state just OUTSIDE the goal region (a sampler
+        // that is right in exact arithmetic and off by an ulp at the rim): every draw comes from it
+        // (bias 1), and a path may only end where the goal PREDICATE holds, adopted sample or not
+        if prop == "C02" {
+            let rim = with_kit!(kit, rim_state(&b));
+            for pk in [Pk::Rrt, Pk::Star] {
+                for sm in [1.0, 1e6] {
+                    for (wn, w) in [("free", b.world_free()), ("subset0001", b.world_named("subset0001", vec![b.obstacles[0].clone()]))] {
+                        let mut sc = b.scenario(w, b.params(pk, sm, 1.5, 1.0), &format!("C02/{kit}/{wn}/{}x{sm}/bias1/goal-sampler-off-the-rim", pk.name()));
+                        sc.goal_samples = vec![b.goal_samples[0].clone(), rim.clone(), b.goal_samples[1].clone(), b.alphabet[b.sub3[1] as usize].clone()];
+                        sc.alphabet = sc.goal_samples.clone();
+                        out.push(sc);
+                    }
+                }
+            }
+        }
         // C03: resolution far finer than the step (edges of 100 L and more). A cap on the number
         // of validity queries per motion, or any spacing derived from the step instead of L, shows
         // only here. Reduced alphabet (start + the 4-letter sub-alphabet) because one motion check
@@ -305,6 +321,19 @@ fn farthest_state<K: Kit>(b: &Base, s: &crate::kit::V) -> crate::kit::V {
 }
 fn marginal_ball_of<K: Kit>(b: &Base, t: &crate::kit::V, toward: &crate::kit::V, r: f64, depth: f64) -> ObstSpec {
     crate::scen::marginal_ball::<K>(&b.spec, t, toward, r, depth)
+}
+
+/// A state just outside the goal ball, on the way from its centre to the start.
+fn rim_state<K: Kit>(b: &Base) -> crate::kit::V {
+    use oxmpl::base::space::StateSpace;
+    let sp = K::build(&b.spec);
+    let (c, r) = &b.goal_ball;
+    let c = K::from_v(c);
+    let s = K::from_v(&b.alphabet[b.start]);
+    let d = sp.distance(&c, &s);
+    let mut out = c.clone();
+    sp.interpolate(&c, &s, (r * 1.001 + 1e-9) / d, &mut out);
+    K::to_v(&out)
 }
 
 /// Another representation of the same configuration (None for R^n, where there is none).
